@@ -16,6 +16,12 @@ use std::{
 /// Note `org_k` should be input as None, it is used internally for recursively calculating
 /// spline derivatives, where it is set to the original `k` value from the outer scope.
 pub fn bsplev_single_f64(x: &f64, i: usize, k: &usize, t: &Vec<f64>, org_k: Option<usize>) -> f64 {
+    #[cfg(rateslib_verif)]
+    if org_k.is_none() && crate::verif::trace::active() {
+        let r = crate::verif::trace::suspended(|| bsplev_single_f64(x, i, k, t, None));
+        crate::verif::trace::basis("bsplev_single_f64", *x, i, *k, t, 0, r);
+        return r;
+    }
     let org_k: usize = org_k.unwrap_or(*k);
 
     // Short circuit (positivity and support property)
@@ -97,6 +103,12 @@ pub fn bspldnev_single_f64(
     m: usize,
     org_k: Option<usize>,
 ) -> f64 {
+    #[cfg(rateslib_verif)]
+    if org_k.is_none() && crate::verif::trace::active() {
+        let r = crate::verif::trace::suspended(|| bspldnev_single_f64(x, i, k, t, m, None));
+        crate::verif::trace::basis("bspldnev_single_f64", *x, i, *k, t, m, r);
+        return r;
+    }
     if m == 0 {
         return bsplev_single_f64(x, i, k, t, None);
     } else if *k == 1 || m >= *k {
